@@ -959,6 +959,9 @@ def grease_tabulation(ctx, report, rule, base, f):
                         raise InvalidValue(code)
                     return Obj(value=Obj(code=code))
 
+                def __iter__(self, codes=codes_in_table):
+                    return iter([Obj(value=Obj(code=c)) for c in sorted(codes)])
+
             class Me(Native):
                 def __init__(self, code):
                     self.code, self.value = code, None
